@@ -197,9 +197,24 @@ def rule_trees(ctx, repo):
     r.check(ok, 'coinbase-zeroed', common.site_of(w, body[zero[0]]) if zero else w.site, 'entry 0 is replaced by 32 zero bytes before the tree is built',
             'the coinbase entry is not unconditionally replaced by 32 zero bytes between collecting the hashes and building the tree')
     r.check(any(norm(s) == 'return CBlock.build_merkle_tree_from_txids(hashes)' for s in body), 'witness-tree', w.site, 'same tree algorithm', 'witness tree is not built by build_merkle_tree_from_txids(hashes)')
-    ng = [s for s in body if isinstance(s, ast.If) and norm(s.test) == 'not has_witness']
-    ok = len(ng) == 1 and len(ng[0].body) == 1 and isinstance(ng[0].body[0], ast.Raise) and norm(ng[0].body[0].exc) in ('NoWitnessData', 'NoWitnessData()')
-    r.check(ok, 'no-witness-data', w.site, 'NoWitnessData iff no transaction has witness', 'NoWitnessData is not raised exactly when no transaction has witness data')
+    from ..rules import canon_text as _ct0, _canon_text_of
+    raising = [s for s in body if isinstance(s, ast.If) and len(s.body) == 1 and isinstance(s.body[0], ast.Raise) and norm(s.body[0].exc) in ('NoWitnessData', 'NoWitnessData()')]
+    if len(raising) != 1:
+        r.check(False, 'no-witness-data', w.site, '', 'NoWitnessData is not raised exactly when no transaction has witness data (%d raising guards)' % len(raising))
+    else:
+        t_ = raising[0].test
+        parts = t_.values if isinstance(t_, ast.BoolOp) and isinstance(t_.op, ast.Or) else [t_]
+        core = [x for x in parts if norm(x) == 'not has_witness']
+        # "no transactions at all" is a case of "no transaction has witness data" (the loop never sets the flag)
+        empties = {_ct0(t) for t in ('len(hashes) < 1', 'len(%s) < 1' % p)} | {'not hashes', 'not %s' % p}
+        extra = [x for x in parts if norm(x) != 'not has_witness']
+        redundant = all((_canon_text_of(ast.parse(norm(x), mode='eval').body) in empties or norm(x) in empties) for x in extra)
+        if core and redundant:
+            r.ok('no-witness-data', w.site, 'NoWitnessData iff no transaction has witness' + (' (an empty list included explicitly)' if extra else ''))
+        elif core:
+            r.undecided('no-witness-data', common.site_of(w, raising[0]), 'NoWitnessData is also raised when `%s`' % ' or '.join(norm(x) for x in extra))
+        else:
+            r.violated('no-witness-data', common.site_of(w, raising[0]), 'NoWitnessData is raised when `%s`, not exactly when no transaction has witness data' % norm(t_))
     init = [norm(n.value) for n in body if isinstance(n, ast.Assign) and norm(n.targets[0]) == 'has_witness']
     r.check(init == ['False'], 'no-witness-data:init', w.site, 'starts False', 'has_witness starts as %s' % init)
     hw = repo.find_method(CORE + 'CTransaction', 'has_witness')
